@@ -1382,3 +1382,45 @@ variant('t-any-other-explicit-loop', ['C05', 'C01'], QP,
 variant('t-any-other-filter-clause', ['C05', 'C01'], QP,
         "        return any(other is not item and predicate(other) for other in self._queue)",
         "        return any(predicate(queued) for queued in self._queue if queued is not item)", kind='twin')
+# ---- handler reactions (rules/reactions.py), half-close (C10.a), reconnect plumbing (C17.e)
+HD = 'rsocket/handlers/'
+variant('b-stream-requester-drops-on-next', ['C01'], HD + 'request_stream_requester.py',
+        "            if frame.flags_next:", "            if frame.flags_next and not frame.flags_complete:",
+        ('C01.f', 'PayloadFrame[complete,next]'))
+variant('b-rr-requester-error-ignored', ['C01'], HD + 'request_response_requester.py',
+        "                self._future.set_exception(error_frame_to_exception(frame))", "                pass",
+        ('C01.f', 'RequestResponseRequester.frame_received/ErrorFrame'))
+variant('b-responder-request-n-ignored', ['C06', 'C01'], HD + 'request_stream_responder.py',
+        "            self.subscriber.subscription.request(frame.request_n)", "            pass",
+        ('C0', 'RequestNFrame / reaction'))
+variant('b-requester-request-not-sent', ['C06'], HD + 'request_stream_requester.py',
+        "        self.send_request_n(n)", "        logger().debug('request %s', n)", ('C06.d', 'request'))
+variant('b-rr-responder-error-as-payload', ['C01'], HD + 'request_response_responder.py',
+        "        elif not future.exception():", "        elif future.exception():", ('C01.f', 'future_done'))
+variant('b-channel-responder-completes-with-publisher', ['C01'], HD + 'request_cahnnel_responder.py',
+        "            if self.subscriber.subscription is None:", "            if self.subscriber.subscription is not None:",
+        ('C01.f', 'RequestChannelFrame'))
+variant('b-stream-responder-not-started', ['C01'], RB,
+        "        self._register_stream(stream_id, request_responder)\n        request_responder.frame_received(frame)",
+        "        self._register_stream(stream_id, request_responder)", ('C01.e', 'dispatch / RequestStreamFrame'))
+variant('b-channel-finishes-on-sent-only', ['C10'], HD + 'request_cahnnel_common.py',
+        "        if self._received_complete and self._sent_complete:", "        if self._sent_complete:",
+        ('C10.a', 'half-close keeps the stream'))
+variant('b-channel-finishes-on-either', ['C10'], HD + 'request_cahnnel_common.py',
+        "        if self._received_complete and self._sent_complete:",
+        "        if self._received_complete or self._sent_complete:", ('C10.a', 'half-close keeps the stream'))
+RC = 'rsocket/rsocket_client.py'
+variant('b-reconnect-does-not-set-event', ['C17'], RC, "        self._connect_request_event.set()",
+        "        self._connect_request_event.clear()", ('C17.e', 'RSocketClient.reconnect'))
+variant('b-connecting-flag-never-reset', ['C17'], RC, "        finally:\n            self._connecting = False",
+        "        finally:\n            pass", ('C17.e', 'connect-in-progress flag cleared'))
+variant('b-connecting-flag-reset-only-on-success', ['C17'], RC,
+        "            await transport.connect()\n        finally:\n            self._connecting = False",
+        "            await transport.connect()\n            self._connecting = False\n        finally:\n            pass",
+        ('C17.e', 'connect-in-progress flag cleared'))
+variant('b-listener-busy-loop', ['C17'], RC, "                    await self._connect_request_event.wait()\n", "",
+        ('C17.e', '_reconnect_listener'))
+variant('b-listener-event-never-cleared', ['C17'], RC,
+        "                    self._connect_request_event.clear()\n                    await self._close(reconnect=True)",
+        "                    await self._close(reconnect=True)", None, kind='twin',
+        note='the finally clause still clears the event: behaviour preserved')
